@@ -17,6 +17,8 @@ pub enum Kind {
     StudentT { nu: f64, mu: Vec<f64>, sigma: Vec<f64> },
     /// -(x^4)/4 per coordinate (light tails, non-Gaussian)
     Quartic,
+    /// skewed product target: x = log G with G ~ Gamma(a, 1): log-density a x - e^x per coordinate
+    LogGamma { a: f64 },
 }
 
 #[derive(Clone, Copy, Debug, PartialEq)]
@@ -125,6 +127,15 @@ impl Target {
                     let z = (x[i] - mu[i]) / sigma[i];
                     lp -= 0.5 * (nu + 1.0) * (z * z / nu).ln_1p();
                     g[i] = -(nu + 1.0) * z / (nu + z * z) / sigma[i];
+                }
+                lp
+            }
+            Kind::LogGamma { a } => {
+                let mut lp = 0.0;
+                for i in 0..self.dim {
+                    let e = x[i].exp();
+                    lp += a * x[i] - e;
+                    g[i] = a - e;
                 }
                 lp
             }
